@@ -113,8 +113,15 @@ func sigString(t types.Type) string {
 	if !ok {
 		return ""
 	}
-	// parameters and results only (a method value has the method's signature without its receiver)
-	return types.TypeString(types.NewSignatureType(nil, nil, nil, s.Params(), s.Results(), s.Variadic()), func(p *types.Package) string { return p.Path() })
+	// parameter and result TYPES only: no receiver (a method value has the method's signature without it), no names
+	anon := func(t *types.Tuple) *types.Tuple {
+		vs := make([]*types.Var, t.Len())
+		for i := range vs {
+			vs[i] = types.NewVar(token.NoPos, nil, "", t.At(i).Type())
+		}
+		return types.NewTuple(vs...)
+	}
+	return types.TypeString(types.NewSignatureType(nil, nil, nil, anon(s.Params()), anon(s.Results()), s.Variadic()), func(p *types.Package) string { return p.Path() })
 }
 
 // callbacks: which methods of module types the code of a standard-library package may call on values handed to it.
@@ -798,6 +805,15 @@ func main() {
 			}
 		}
 	}
+	// the STATIC references (named functions, methods, literals, tables mentioned, interface / library call-backs) are kept
+	// apart from the edges added for calls of function VALUES
+	static := map[string]map[string]bool{}
+	for k, n := range nodes {
+		static[k] = map[string]bool{}
+		for r := range n.refs {
+			static[k][r] = true
+		}
+	}
 	// a call of a function value may reach every function, method or function literal of the module with that signature
 	bySig := map[string][]string{}
 	for k, n := range nodes {
@@ -865,6 +881,33 @@ func main() {
 			fmt.Fprintf(&facts, "write %s : %s [%s]\n", k, p[0], p[1])
 		}
 	}
+	sb.WriteString("]\n\n/-- the static reference edges only (without the edges added for calls of function values) -/\ndef staticEdges : List (List Nat) :=\n  [")
+	for i, k := range names {
+		var rs []string
+		for r := range static[k] {
+			rs = append(rs, r)
+		}
+		sort.Strings(rs)
+		var es []string
+		for _, r := range rs {
+			if j, ok := idx[r]; ok {
+				es = append(es, strconv.Itoa(j))
+			}
+		}
+		if i > 0 {
+			sb.WriteString(",\n   ")
+		}
+		sb.WriteString("[" + strings.Join(es, ", ") + "]")
+	}
+	sb.WriteString("]\n\n/-- nodes whose signature is that of a render function, func(string, string) (string, error) -/\ndef renderFnTyped : List Nat :=\n  [")
+	var rf []string
+	for i, k := range names {
+		if nodes[k].sig == "func(string, string) (string, error)" {
+			rf = append(rf, strconv.Itoa(i))
+			fmt.Fprintf(&facts, "renderfn-typed %s\n", k)
+		}
+	}
+	sb.WriteString(strings.Join(rf, ", "))
 	sb.WriteString("]\n\n/-- constructs whose outcome is not a function of the arguments, per node: iteration over a map, `go`, `select`, calls into time / rand / os / runtime -/\ndef nondet : List (Nat × String) :=\n  [")
 	firstN := true
 	for i, k := range names {
